@@ -54,7 +54,7 @@ def check_call(sizer, dh, equity, buf, rate, ws, ps):
     assets = ASSETS[:n]
     dh.ask = {a: float(fw(p)) for a, p in zip(assets, ps)}
     weights = {a: float(fw(w)) for a, w in zip(assets, ws)}
-    case = {'kind': 'size', 'equity': equity, 'buffer': buf, 'rate': rate, 'weights': list(ws), 'asks': list(ps)}
+    case = {'kind': 'size', 'equity': str(equity), 'buffer': buf, 'rate': rate, 'weights': list(ws), 'asks': list(ps)}
     try:
         got = sizer(DT, dict(weights))
     except Exception as e:  # noqa
@@ -104,8 +104,24 @@ def group(item):
     broker = make_broker(equity, rate, dh)
     sizer = DollarWeightedCashBufferedOrderSizer(broker, 'p', dh, cash_buffer_percentage=float(fw(buf)))
     viols, amb, n, outs, nz = [], 0, 0, set(), 0
-    for ws in itertools.product(WEIGHTS, repeat=len(ps)):
-        f, a, oc = check_call(sizer, dh, equity, buf, rate, ws, ps)
+    # phase 1: every weight vector at prices ps; phase 2: the quotes change (same timestamp) and every weight
+    # vector again; phase 3: a SUBSET of the assets is sized; phase 4: half of the funds are withdrawn (same
+    # timestamp) and sizing must follow the new equity.  All on the one sizer / broker pair.
+    ps2 = tuple(ASKS[(ASKS.index(x) + 1) % len(ASKS)] for x in ps)
+    plan = [(equity, ps, ws) for ws in itertools.product(WEIGHTS, repeat=len(ps))]
+    plan += [(equity, ps2, ws) for ws in itertools.product(WEIGHTS, repeat=len(ps))]
+    if len(ps) > 1:
+        plan += [(equity, ps[:-1], ws) for ws in itertools.product(WEIGHTS[3:], repeat=len(ps) - 1)]
+    half = fw(equity) / 2
+    plan += [('half', ps, ws) for ws in itertools.product(WEIGHTS[2:5], repeat=len(ps))]
+    withdrawn = False
+    for eq, prices, ws in plan:
+        if eq == 'half':
+            if not withdrawn:
+                broker.withdraw_funds_from_portfolio('p', float(half))
+                withdrawn = True
+            eq = half
+        f, a, oc = check_call(sizer, dh, eq, buf, rate, ws, prices)
         n += 1
         amb += a
         viols += f
